@@ -148,6 +148,8 @@ def deviations (e : Ideal) (seen : Seen) (complete hostPending : Bool) (pendingL
       explained := true
     if !explained then
       sigs := "instance_not_complete: every task was answered and every boundary event fired, the instance does not complete" :: sigs
+  if e.host == .waiting && seen.h == 0 && !hostPending then
+    sigs := "host_never_requested: the token reached the host, no interrupting boundary event fired, and the host activity was never requested (its token is stranded)" :: sigs
   if pendingLeft == 0 && !e.mayComplete && complete then
     sigs := "completes_early: the instance completed although the host still waits for its answer" :: sigs
   return sigs
